@@ -122,9 +122,9 @@ async def _run_loop_case(case: dict, loop: Any) -> dict:
     with time_machine.travel(dt(wall0), tick=False) as traveller:
 
         async def sleep_until(t: int) -> None:
-            d = t - now_us()
-            if d > 0:
-                await asyncio.sleep(d / 1e6)
+            while t - now_us() > 0:
+                # async_solipsism refuses to jump 24 h or more at once (it takes that for "sleeping forever")
+                await asyncio.sleep(min(t - now_us(), 12 * 3600 * 10**6) / 1e6)
             traveller.move_to(dt(wall0 + now_us()))
 
         await sleep_until(loop0)
@@ -748,7 +748,3 @@ def gen_helper_case(rng: random.Random, ordered: bool = True, exotic: bool = Fal
     case = {"kind": "helper", "period": p, "max_age": max_age, "init_len": init_len, "max_len": max_len, "events": events}
     return case, tags
 
-
-def canon_small(case: dict) -> dict:
-    """The loop case a per-series trace came from (kept inside the trace so that a replay can re-run it)."""
-    return case
